@@ -10,6 +10,7 @@
 import EasyNet.Lemmas.RU
 import EasyNet.Lemmas.RUSpec
 import EasyNet.Lemmas.ConsumerSim
+import EasyNet.Lemmas.BRUSpec
 namespace EasyNet
 
 theorem RU.refines (sep : Bytes) (limit : Nat) (ke : Bool) (hsep : sep ≠ []) :
@@ -31,6 +32,7 @@ theorem C01_sep_copy_roundtrip (sep : Bytes) (limit : Nat) (ke : Bool) (hsep : s
   have hdec := RU.decode_frames sep limit ke hsep ps hvalid
   have hind := refRun_chunk_independent L chunks [] (Or.inl rfl)
     (by
+      apply AllOk_of_NoLimit
       simp only [List.nil_append, hcut, hdec]
       intro it hit
       simp [frameOf] at hit
@@ -48,5 +50,67 @@ theorem C01_sep_copy_roundtrip (sep : Bytes) (limit : Nat) (ke : Bool) (hsep : s
 example : (∀ p ∈ ([[97, 98], [99]] : List Bytes), ValidPayload [13, 10] 10 p) ∧
     ([[97, 98, 13], [10, 99, 13, 10]] : List Bytes).flatten = encodeFrames [13, 10] [[97, 98], [99]] := by
   decide +kernel
+
+/-- **C01, separator-framed serializers, buffer-filling consumer** (buffer capacity `cap` = the serializer's limit).
+    For every list of payloads safely inside the capacity and *every* history of non-empty fills that fit the write
+    buffer offered at that moment (any fill sizes) and whose concatenation is the produced stream, the consumer
+    delivers exactly those frames, in order, once each, reports no error, and retains nothing. -/
+theorem C01_sep_buffered_roundtrip (sep : Bytes) (cap : Nat) (ke : Bool) (hsep : sep ≠ []) (hcap : 0 < cap)
+    (ps : List Bytes) (hvalid : ∀ p ∈ ps, ValidPayloadB sep cap p)
+    (fills : List Bytes) (hcut : fills.flatten = encodeFrames sep ps)
+    (r : BufConsumer BRUState × List Item)
+    (hrun : BufConsumer.runFills BRU.init 0 cap (BRU.feed true sep ke) BufConsumer.new fills = some r) :
+    r.2 = ps.map (frameOf sep ke) ∧
+    BufConsumer.Rel (·.buflen) (BRU.spec sep cap ke) (BRU.Inv sep cap) cap r.1 [] := by
+  have R := BRU.refines sep cap ke hsep
+  have L := BRU.spec_laws sep cap ke hsep
+  have hnew : BufConsumer.Rel (·.buflen) (BRU.spec sep cap ke) (BRU.Inv sep cap) cap
+      (BufConsumer.new : BufConsumer BRUState) [] :=
+    ⟨rfl, Or.inl ⟨rfl, rfl, rfl, Or.inl rfl⟩⟩
+  have hsim := BufConsumer.runFills_ref cap R hcap fills BufConsumer.new [] hnew r hrun
+  have hdec := BRU.decode_frames sep cap ke hsep ps hvalid
+  have hind := refRun_chunk_independent L fills [] (Or.inl rfl)
+    (by simp only [List.nil_append, hcut, hdec]; exact BRU.frames_allOk sep cap ke ps hvalid)
+  simp only [List.nil_append, hcut, hdec] at hind
+  rw [hind] at hsim
+  exact hsim
+
+/-- the buffered consumer can always accept at least one more byte between reads (it never reaches the
+    "start position is set to the end of the buffer" crash), provided the separator fits the buffer -/
+theorem C01_sep_buffered_room (sep : Bytes) (cap : Nat) (ke : Bool) (hsep : sep ≠ []) (hcap : sep.length ≤ cap)
+    (c : BufConsumer BRUState) (h : Bytes)
+    (hrel : BufConsumer.Rel (·.buflen) (BRU.spec sep cap ke) (BRU.Inv sep cap) cap c h) (hw : c.written = 0) :
+    0 < (BufConsumer.prepare BRU.init 0 cap c).room := by
+  have hpos : 0 < sep.length := List.length_pos_iff.mpr hsep
+  rcases hrel with ⟨_, ⟨hfr, _, _, hbuf⟩ | ⟨s, hfr, hlen, hst, hfit, htake, hinv, hw0⟩⟩
+  · simp only [BufConsumer.prepare, hfr, BufConsumer.room, hw]
+    rcases hbuf with hb | hb
+    · simp [hb]; omega
+    · have : c.buffer.isEmpty = false := by
+        cases hc : c.buffer with
+        | nil => rw [hc] at hb; simp at hb; omega
+        | cons x xs => rfl
+      simp [this, hb]; omega
+  · have hne : c.buffer.isEmpty = false := by
+      cases hc : c.buffer with
+      | nil => rw [hc] at hlen; simp at hlen; omega
+      | cons x xs => rfl
+    have hfit' : s.buflen ≤ cap := by simpa [hw] using hfit
+    have hhl : h.length = s.buflen := by
+      rw [← htake, hw]; simp only [Nat.add_zero, List.length_take]; omega
+    simp only [BufConsumer.prepare, hfr, hne, BufConsumer.room, hw, hst, Bool.false_eq_true, if_false, hlen, Nat.add_zero]
+    rcases hw0 hw with hnil | hneed
+    · subst hnil; simp at hhl; simp [← hhl]; omega
+    · unfold BRU.spec at hneed
+      cases hf : firstOcc sep h with
+      | some i => rw [hf] at hneed; cases hneed
+      | none =>
+        rw [hf] at hneed; simp only at hneed
+        split at hneed
+        · cases hneed
+        · rename_i hl
+          simp; omega
+
+example : (∀ p ∈ ([[97, 98], [99]] : List Bytes), ValidPayloadB [13, 10] 8 p) := by decide +kernel
 
 end EasyNet
